@@ -14,7 +14,7 @@ from ..core.terms import (cmp_, not_, pc, phi_, c, evaluate, fn_name, kw, make_i
                           pretty, subterms)
 from ..domains import concrete
 from .c07 import enum_members
-from .common import LIB_FACTS, is_call, method, short
+from .common import LIB_FACTS, fresh_result_obligation, is_call, method, short
 
 SELF = n("self")
 ETYPE = "liesel.goose.epoch.EpochType"
@@ -172,6 +172,7 @@ def check(ctx):
     # ------------------------------------------------------------------ R3
     se = repo.func("liesel.goose.warmup.stan_epochs")
     rs = evaluate(repo, se)
+    fresh_result_obligation(ctx, "C16.R3", se, "stan_epochs")
     alias = se.module.assigns.get("_EpochConfig")
     ok_alias = alias is not None and ast.unparse(alias).replace(" ", "") == \
         "partial(EpochConfig,optional=None)"
